@@ -61,6 +61,12 @@ From SQ Require Import Net.Bookkeeping Qasm.TeardownFull.
 Theorem C11_host_network_is_reachable : forall caps i qs, reachable (q_net (run_q i (init_q caps) qs)).
 Proof. exact run_q_reachable. Qed.
 Print Assumptions C11_host_network_is_reachable.
+(* ... reached without the virtual node's client operation remote_add_register, which the NetQASM backend never calls (the one
+   operation that leaves an EMPTY register behind; `reachable_core` is the hypothesis of Net/NonEmpty.v) *)
+From SQ Require Import Net.NonEmpty.
+Theorem C11_host_network_is_core_reachable : forall caps i qs, reachable_core (q_net (run_q i (init_q caps) qs)).
+Proof. exact run_q_reachable_core. Qed.
+Print Assumptions C11_host_network_is_core_reachable.
 
 Theorem C11_stop_leaves_nothing : forall caps i qs, fresh_inits i (init_q caps) qs ->
   h_units (q_host (run_q i (init_q caps) qs)) = [] ->
@@ -106,6 +112,9 @@ Print Assumptions C11_net_invariant_reachable.
 Theorem C11_net_is_reachable : forall caps xs, reachable (n_net (nrun (ninit caps) xs)).
 Proof. exact nrun_reachable. Qed.
 Print Assumptions C11_net_is_reachable.
+Theorem C11_net_is_core_reachable : forall caps xs, reachable_core (n_net (nrun (ninit caps) xs)).
+Proof. exact nrun_reachable_core. Qed.
+Print Assumptions C11_net_is_core_reachable.
 
 (* the population clause for N hosts: after ANY clean history of host-level actions over N hosts (instructions incl.
    allocations, frees, gates between halves simulated elsewhere, measurements, failing instructions, pair creations
